@@ -300,4 +300,24 @@ PROPS = {
         ],
         "assumptions": ["equal git tree ids are taken to mean equal flat contents (canonical trees of regular files)"],
     },
+    "C15": {
+        "propfile": "PropC15.v",
+        "n": {"quick": 20, "thorough": 500},
+        "corr": "experimental/gittuf ReconcileLocalRSLWithRemote and sync on pairs of real repositories (local with remote 'origin') vs "
+                "Reconcile.reconcile / Reconcile.sync: error kind, the local log afterwards (independent walker; annotations as positions), local "
+                "and remote refs, the remote log, the diverged-refs list; and, on the implementation's answers, the clauses of the property",
+        "rule": "a shared recorded prefix of 2-4 entries, then a shape in {diverged on disjoint refs (x2), diverged on overlapping refs, remote "
+                "ahead, local ahead, equal}; suffixes of 1-4 entries: reference entries (3 branches, new commits), propagation entries, annotations "
+                "(skip 3 in 4) of own-side-only or shared entries, 1-2 references each; for sync with an unchanged local log the local branches are "
+                "put behind / at / ahead of / diverged from the remote tip or deleted, overwrite flag 1 in 3. non-trivial = shape is not 'equal'",
+        "theorems": ["C15_reconcile_extends_remote_keeps_local", "C15_revocations_follow_rerecorded_entries", "C15_shared_revocations_merged",
+                     "C15_conflict_iff_same_reference", "C15_sync_moves_only_to_recorded_state", "C15_sync_divergence_changes_nothing",
+                     "C15_sync_publishes_refs_with_entries"],
+        "trusted": [
+            "logs are modelled positionally (an entry is its position, annotations name positions); entry ids, numbering and signatures are those of C03/C04/C14",
+            "git fetch/push (fast-forward-only refspecs) are observed, not modelled: pushes that git would reject (non-fast-forward remote refs) are not generated",
+            "Sync's propagation step (needs a policy) is not run: the check calls sync, the part of Sync that touches the log and refs; tags and gittuf:// transports are not generated",
+        ],
+        "assumptions": ["annotations refer only to earlier entries of their own log (targets_below), as entry ids being commit hashes guarantees"],
+    },
 }
